@@ -158,7 +158,10 @@ fn render_shard(spec: &ProgSpec, cases: &[CaseSrc], members: &[usize]) -> (Strin
     let mut src = String::new();
     src.push_str(&spec.crate_attrs);
     src.push('\n');
-    src.push_str("#![allow(dead_code, unused_imports, unused_variables, non_camel_case_types, non_snake_case, non_upper_case_globals)]\n");
+    // (a property that judges warnings brings its own, narrower list: `crate_attrs` containing the marker `dmv:own-lints`)
+    if !spec.crate_attrs.contains("dmv:own-lints") {
+        src.push_str("#![allow(dead_code, unused_imports, unused_variables, non_camel_case_types, non_snake_case, non_upper_case_globals)]\n");
+    }
     src.push_str(RUNTIME);
     src.push_str(&spec.prelude);
     src.push('\n');
